@@ -1,4 +1,4 @@
-// GENERATED COPY of harness/c01/src/main.rs lines 6-626 (from the first `use` to just before
+// GENERATED COPY of harness/c01/src/main.rs lines 6-660 (from the first `use` to just before
 // `fn run_input`: JSON order language, time scales, conversions to the real types, Coq printers,
 // engine builder / order-op application). Regenerate after changing that part of c01. Included
 // textually by main.rs.
@@ -89,6 +89,8 @@ enum OpJ {
     RecCancel { key: KeyJ, oid: Option<u32> },
     Snap { o: OrdJ },
     CancelResp { key: KeyJ, ok: bool, oid: u32, t: i64, err: u8 },
+    /// persist / restore: serialise the state to JSON, deserialise it, continue on the result
+    Persist {},
 }
 #[derive(Serialize, Deserialize, Clone, Debug, PartialEq)]
 struct ISnapJ {
@@ -425,6 +427,7 @@ fn coq_op(op: &OpJ) -> String {
         OpJ::CancelResp { key, ok, .. } => {
             format!("CancelResp {} {}", coq_key_real(&real_key(key)), b(*ok))
         }
+        OpJ::Persist {} => unreachable!("persist steps are printed by the run loop"),
     }
 }
 fn coq_eop(x: &EopJ) -> String {
@@ -482,6 +485,7 @@ fn cmp_class(cur: Option<&ActiveOrder>, t: i64) -> &'static str {
 }
 fn op_tag(cur: Option<&ActiveOrder>, op: &OpJ) -> String {
     let o = match op {
+        OpJ::Persist {} => return "persist".to_string(),
         OpJ::RecOpen { .. } => "recOpen".to_string(),
         OpJ::RecCancel { .. } => "recCancel".to_string(),
         OpJ::CancelResp { ok, .. } => if *ok { "respOk" } else { "respErr" }.to_string(),
@@ -511,10 +515,17 @@ fn op_tag(cur: Option<&ActiveOrder>, op: &OpJ) -> String {
     };
     format!("{}>{}", pre_class(cur), o)
 }
+const NOKEY: KeyJ = KeyJ {
+    e: 0,
+    i: 0,
+    s: 0,
+    c: 0,
+};
 fn op_key(op: &OpJ) -> &KeyJ {
     match op {
         OpJ::RecOpen { o } | OpJ::Snap { o } => &o.key,
         OpJ::RecCancel { key, .. } | OpJ::CancelResp { key, .. } => key,
+        OpJ::Persist {} => &NOKEY,
     }
 }
 
@@ -522,8 +533,28 @@ fn op_key(op: &OpJ) -> &KeyJ {
 // Driving the real code
 // ---------------------------------------------------------------------------------------------
 
+/// serde_json round trip of a value; returns whether the restored value equals the original
+/// (it must on the unchanged code) and continues on the restored value
+fn roundtrip<T: Serialize + serde::de::DeserializeOwned + PartialEq>(x: &mut T) -> bool {
+    let js = serde_json::to_string(&*x).expect("state serialises");
+    let back: T = serde_json::from_str(&js).expect("state deserialises");
+    let same = back == *x;
+    *x = back;
+    same
+}
+fn persist_engine_orders(state: &mut Engine) -> bool {
+    let mut same = true;
+    for inst in state.instruments.0.values_mut() {
+        same &= roundtrip(&mut inst.orders);
+    }
+    same
+}
+
 fn apply_orders(orders: &mut Orders<ExchangeIndex, InstrumentIndex>, op: &OpJ) {
     match op {
+        OpJ::Persist {} => {
+            roundtrip(orders);
+        }
         OpJ::RecOpen { o } => orders.record_in_flight_open(&real_request(o)),
         OpJ::RecCancel { key, oid } => orders.record_in_flight_cancel(&real_cancel(key, *oid)),
         OpJ::Snap { o } => {
@@ -565,6 +596,9 @@ fn build_engine(ninst: usize) -> Engine {
 fn apply_engine(state: &mut Engine, x: &EopJ) {
     match x {
         EopJ::Ord { op } => match op {
+            OpJ::Persist {} => {
+                persist_engine_orders(state);
+            }
             OpJ::RecOpen { o } => state.record_in_flight_open(&real_request(o)),
             OpJ::RecCancel { key, oid } => state.record_in_flight_cancel(&real_cancel(key, *oid)),
             OpJ::Snap { o } => {
